@@ -51,6 +51,15 @@ theorem no_deadlock (ops : List Op) (hr : (finalState {} ops).ready = [])
   have := hq k hk
   simpa using this
 
+/-- non-vacuity of `no_deadlock`: its hypotheses (nothing runnable, nothing outstanding) are reached after a
+    cancellation of the marker's owner with a waiter pending, and then indeed all three lookups have finished -/
+example :
+    let s := finalState {} [.lookup 0, .lookup 0, .step, .step, .cancel 0, .step, .step, .complete 1 none, .step,
+                            .lookup 0, .step]
+    s.ready = [] ∧ s.outstandingCount = 0 ∧ s.ts.length = 3 ∧ s.ts.all (fun k => k.pc == .done) = true
+      ∧ s.mon.dls.length = 2 := by
+  decide
+
 /-- every scheduler snapshot of every trace passes the monitor's deadlock check -/
 theorem snapshots_ok (ops : List Op) :
     ∀ r o p, Item.snap r o p ∈ run ops → quietOk r o p = true := by
